@@ -18,7 +18,7 @@
     Proofs: UnionThm.v ([union_correct]), InterDiffThm.v ([difference_correct],
     [difference_mut_mirrors]), Lookup.v ([get_lpm_spec], [is_lpm_unique]), SetOpsExtra.v. *)
 From Coq Require Import List NArith Sorted.
-From PT Require Import Lookup ViewsThm UnionThm InterDiffThm SetOpsExtra.
+From PT Require Import Lookup ViewsThm UnionThm InterDiffThm SetOpsExtra Arena Arena3 ArenaProps.
 From PT.Properties Require Import Common.
 Import ListNotations.
 
@@ -231,6 +231,29 @@ Proof.
   - exact (view_at_wf pfx _ _ _ _ _ _ _ _ _ (laws w fl Hw) _ qb vb (reachable_wfm w fl R Hw opsB HB) Hqb Eb).
 Qed.
 
+(** * The same statement about the ARENA-level transcription of the code (Arena*.v; ArenaProps.v
+      composes the refinement [Rep] with the tree-level theorem): both operands are arenas reachable
+      from the empty arena by any history over the whole alphabet; the iterators run at the two roots. *)
+(** [union_spec] and [diff_spec] contain the annotation clauses: every [ILeft]/[IRight] item of the union
+    and every item of the difference carries the true longest-prefix match of its key in the other
+    operand's entry list ([lpm_ann]). *)
+Theorem C08_arena (amL : Arena.amap pfx L) (amR : Arena.amap pfx R) esL esR :
+  areach pfx L (peq w) (contains w fl) (is_bit_set w) plen (lcp w fl) pzero (okp w) amL -> areach pfx R (peq w) (contains w fl) (is_bit_set w) plen (lcp w fl) pzero (okp w) amR ->
+  Arena.a_entries pfx L amL = Arena.Ok esL -> Arena.a_entries pfx R amR = Arena.Ok esR ->
+  exists outu outd,
+    Arena3.a_union pfx L R (contains w fl) (is_bit_set w) plen (mcmp w) (Arena.tbl amL) (Arena.tbl amR) 0 0 = Arena.Ok outu /\
+    UnionThm.union_spec pfx L R (kbits w) esL esR outu /\
+    Arena3.a_difference pfx L R (contains w fl) (is_bit_set w) plen (mcmp w) (Arena.tbl amL) (Arena.tbl amR) 0 0 = Arena.Ok outd /\
+    InterDiffThm.diff_spec pfx L R (kbits w) esL esR outd.
+Proof.
+  intros HL HR EL ER.
+  destruct (arena_C05_C08_union pfx L R _ _ _ _ _ _ _ _ _ (laws w fl Hw) amL amR esL esR HL HR EL ER)
+    as (outu & _ & E1 & S1 & _).
+  destruct (arena_C07_C08_difference pfx L R _ _ _ _ _ _ _ _ _ (laws w fl Hw) amL amR esL esR HL HR EL ER)
+    as (outd & _ & E2 & S2 & _).
+  exists outu, outd. auto.
+Qed.
+
 End C08.
 
 (** Non-vacuity (w = 8).  Map A = {00/2 ↦ 1, 01/2 ↦ 2, 1/1 ↦ 3, 110/3 ↦ 4} over [nat] (node 0/1
@@ -299,3 +322,4 @@ Print Assumptions C08_difference_whole_map.
 Print Assumptions C08_union_whole_map.
 Print Assumptions C08_views.
 Print Assumptions C08_reachable.
+Print Assumptions C08_arena.
